@@ -11,21 +11,21 @@ type propDef struct {
 var propertyOrder = []string{"C01", "C02", "C03", "C04", "C05", "C06", "C07", "C08", "C09", "C10", "C11", "C12", "C13", "C14", "C15", "C16", "C17"}
 
 var properties = map[string]*propDef{
-	"C01": {Rules: []string{"TAB-NOTE", "TAB-DEGREE", "TAB-CHORDS", "TAB-DEFAULTS"}},
-	"C02": {Rules: []string{"TICKS", "PENDING", "NOTE"}},
+	"C01": {Rules: []string{"APPLY", "TAB-NOTE", "TAB-DEGREE", "TAB-CHORDS", "TAB-ATTRS", "TAB-DEFAULTS", "EXTENDS", "PLAYLOOP", "NOTE", "OPT", "LOOKUP"}},
+	"C02": {Rules: []string{"TICKS", "PENDING", "NOTE", "PLAYLOOP", "OPMAP", "TRACKADD"}},
 	"C03": {Rules: []string{"TAB-KEYSIG", "TAB-NOTE", "TAB-DEGREE", "TAB-SEARCH"}},
 	"C04": {Rules: []string{}},
-	"C05": {Rules: []string{}},
-	"C06": {Rules: []string{"OWN", "TRACKADD", "PENDING", "SELECT", "FLAGS"}},
-	"C07": {Rules: []string{"TAB-KEYSIG", "TAB-DYNAMICS", "TAB-DEFAULTS"}},
-	"C08": {Rules: []string{"NOTE", "SELECT", "OPMAP", "TRACKCOUNT", "TAB-DYNAMICS"}},
-	"C09": {Rules: []string{"EXIT", "EOFPRED", "NILOK", "VALIDATE", "REJECT", "MUST", "RECUR", "ERRDROP", "FLAGS", "NARROW", "LOOKUP", "DEBUGOUT"}},
+	"C05": {Rules: []string{"APPLY", "PLAYLOOP", "OPT"}},
+	"C06": {Rules: []string{"OWN", "TRACKADD", "PENDING", "SELECT", "TRACKCOUNT", "FLAGS"}},
+	"C07": {Rules: []string{"TAB-DYNAMICS", "TAB-DEFAULTS", "TAB-KEYSIG", "OPT", "OPMAP", "PENDING", "NARROW", "PLAYLOOP", "FLAGS", "REJECT"}},
+	"C08": {Rules: []string{"NOTE", "PLAYLOOP", "PENDING", "SELECT", "OPMAP", "TRACKCOUNT", "TAB-DYNAMICS"}},
+	"C09": {Rules: []string{"EXIT", "EOFPRED", "NILOK", "VALIDATE", "REJECT", "MUST", "RECUR", "ERRDROP", "FLAGS", "NARROW", "LOOKUP", "DEBUGOUT", "PLAYLOOP", "APPLY", "CONC", "SELECT"}},
 	"C10": {Rules: []string{"TAB-NOTATION", "TAB-REGEX", "TAB-DYNAMICS"}},
 	"C11": {Rules: []string{}},
 	"C12": {Rules: []string{"MAPORDER", "CONC", "NONDET", "IOLAYER", "DEBUGOUT"}},
 	"C13": {Rules: []string{"TAB-KEYSIG"}},
 	"C14": {Rules: []string{"TAB-CIRCLE"}},
 	"C15": {Rules: []string{"TAB-DEGREE", "TAB-NOTATION", "TAB-NOTE"}},
-	"C16": {Rules: []string{"TAB-CHORDS", "TAB-ATTRS"}},
+	"C16": {Rules: []string{"TAB-CHORDS", "TAB-ATTRS", "BUILDER", "VALIDATE", "RECUR", "EXTENDS"}},
 	"C17": {Rules: []string{"TAB-DIATONIC", "TAB-LEXNAMES", "TAB-CHORDS", "TAB-KEYSIG"}},
 }
